@@ -985,10 +985,16 @@ static int ec_glob(char *loc, char *cmd, char *arg, char *txt)
 	while (i < lbuf_len(xb)) {
 		char *ln = lbuf_get(xb, i);
 		if ((rstr_find(re, ln, LEN(offs) / 2, offs, 0) < 0) == not) {
+			int lo = lbuf_modlo(xb, lbuf_len(xb));	/* the enclosing global's */
+			int err, cur;
 			xrow = i;
-			if (ex_exec(s))
+			err = ex_exec(s);
+			cur = lbuf_modlo(xb, 0);
+			lbuf_modlo(xb, MIN(lo, cur));
+			if (err)
 				break;
-			i = MAX(0, MIN(i, xrow));
+			/* the lines yet to visit are not above the lowest change */
+			i = MAX(0, MIN(i, cur));
 		}
 		while (i < lbuf_len(xb) && !lbuf_globget(xb, i, xgdep))
 			i++;
